@@ -214,7 +214,7 @@ def run(chk: Check):
         _b1(chk, dict(W=2, MaxEp=7, MaxInj=6, Reorder=2, Depth=11), "W2d11")
         _b1(chk, dict(W=3, MaxEp=6, MaxInj=6, Reorder=1, Depth=11), "W3d11")
         _b1(chk, dict(W=1, MaxEp=6, MaxInj=6, Reorder=1, Depth=10), "W1d10")
-        _b2(chk, 800, 100, 3, 5, "W3")
-        _b2(chk, 400, 100, 5, 5, "W5")
-        _b2(chk, 400, 200, 10000, 5, "W10000")
+        _b2(chk, 480, 80, 3, 5, "W3")
+        _b2(chk, 240, 80, 5, 5, "W5")
+        _b2(chk, 160, 160, 10000, 4, "W10000")
     chk.cov["exhaustive"] = True
